@@ -761,6 +761,7 @@ func runC12(c *vk.Ctx) {
 	runC12Int(c)
 	runC12Dec(c)
 	runC12Concurrent(c, ops, uops)
+	runC12Ownership(c, ops)
 }
 
 func renderDec(i *big.Int, prec int) string {
@@ -980,5 +981,93 @@ func runC12Concurrent(c *vk.Ctx, ops []bdBinOp, uops []bdUnOp) {
 			return
 		}
 		c.Class("concurrent|batch-of-600|8-goroutines")
+	})
+}
+
+
+// runC12Ownership: the value a non-mutating operation returns belongs to the caller. Changing it in place afterwards
+// must leave the operands, every other value and the library's own constants alone (a result that shares storage
+// with an operand or with a package-level value is an operand that is not left untouched, one step later).
+func runC12Ownership(c *vk.Ctx, ops []bdBinOp) {
+	type un struct {
+		name string
+		f    func(a osmomath.BigDec) osmomath.BigDec
+	}
+	uns := []un{
+		{"Ceil", func(a osmomath.BigDec) osmomath.BigDec { return a.Ceil() }},
+		{"TruncateDec", func(a osmomath.BigDec) osmomath.BigDec { return a.TruncateDec() }},
+		{"Abs", func(a osmomath.BigDec) osmomath.BigDec { return a.Abs() }},
+		{"Neg", func(a osmomath.BigDec) osmomath.BigDec { return a.Neg() }},
+		{"Clone", func(a osmomath.BigDec) osmomath.BigDec { return a.Clone() }},
+		{"ChopPrecision", func(a osmomath.BigDec) osmomath.BigDec { return a.ChopPrecision(18) }},
+	}
+	var nonMut []bdBinOp
+	for _, o := range ops {
+		if !o.mut && o.kind == "bd" {
+			nonMut = append(nonMut, o)
+		}
+	}
+	constantsOK := func() string {
+		if !osmomath.ZeroBigDec().IsZero() {
+			return fmt.Sprintf("ZeroBigDec() is now %s", osmomath.ZeroBigDec())
+		}
+		if osmomath.OneBigDec().BigInt().Cmp(e36) != 0 {
+			return fmt.Sprintf("OneBigDec() is now %s", osmomath.OneBigDec())
+		}
+		if osmomath.SmallestBigDec().BigInt().Cmp(bigOne) != 0 {
+			return fmt.Sprintf("SmallestBigDec() is now %s", osmomath.SmallestBigDec())
+		}
+		if v := mkBD(big.NewInt(5)).TruncateDec(); !v.IsZero() {
+			return fmt.Sprintf("TruncateDec(5e-36) is now %s", v)
+		}
+		return ""
+	}
+	c.Cases("result-ownership", c.N(40000, 1000000), func(i int, r *vk.Rng) {
+		var ai *big.Int
+		switch r.Intn(5) {
+		case 0:
+			ai = new(big.Int).Mul(big.NewInt(r.Range(-9, 9)), e36) // whole numbers incl. 0
+		case 1:
+			ai = big.NewInt(r.Range(-1000, 1000)) // far below one
+		default:
+			ai = genScaled(r, 36, 300)
+		}
+		a := mkBD(ai)
+		bi := genScaled(r, 36, 200)
+		b := mkBD(bi)
+		name := ""
+		var res osmomath.BigDec
+		rec, _ := vk.Guard(func() {
+			if i%2 == 0 {
+				u := uns[r.Intn(len(uns))]
+				name = u.name
+				res = u.f(a)
+			} else {
+				o := nonMut[r.Intn(len(nonMut))]
+				name = o.name
+				res = o.f(a, b)
+			}
+		})
+		if rec != nil {
+			return // overflow / division by zero: decided by the other parts
+		}
+		c.Eval(1)
+		before := res.String()
+		// the caller now works on its result in place
+		res.AddMut(mkBD(new(big.Int).Mul(big.NewInt(7), e36)))
+		sig := map[string]any{"method": name}
+		if bdI(a).Cmp(ai) != 0 {
+			c.Violate("C12.operand_mutated", sig, "%s(%s/1e36) returned %s; after the caller changed that result in place the operand reads %s", name, ai, before, a)
+			return
+		}
+		if bdI(b).Cmp(bi) != 0 {
+			c.Violate("C12.operand_mutated", sig, "%s: changing the result in place changed the second operand", name)
+			return
+		}
+		if msg := constantsOK(); msg != "" {
+			c.Violate("C12.operand_mutated", sig, "%s(%s/1e36) returned %s; after the caller changed that result in place %s", name, ai, before, msg)
+			return
+		}
+		c.Class("owned|%s|%s", name, sgn(ai))
 	})
 }
